@@ -3,11 +3,14 @@ import Enc.Lemmas.ProtoRewriteSpecFlat
 # C19 — the proto rewriters against the record-level specification: final statements
 
 Model: `Enc.Model.Proto.rewrite` (Go `MessageRewriter.Rewrite`, `multiRewriter`, `RawMessage.Rewrite`,
-`embddedRewriter`, `Parse`, `Append`).  Specification: `Enc.Spec.Protobuf.specRw` over `Enc.Spec.Protobuf.parse`.
+`embddedRewriter` with and without `merge` (`mergeOccurrences`), `replacement`, `Parse`, `Append`).
+Specification: `Enc.Spec.Protobuf.specRw` over `Enc.Spec.Protobuf.parse`.
+All six `Rw` constructors are covered by every theorem below; `rwOK` excludes no constructor.
 
 1. `parseField_spec`, `parseField_encRec`   `Parse` / `Append` versus the reference parser
-2. `rewrite_spec`                           main theorem (all four rewriter kinds), up to `Sim (hasEmb r)`
-   `rewrite_spec_exact`                     … exact equality `parse out = specRw …` without `embedded`
+2. `rewrite_spec`                           main theorem (all six rewriter kinds), up to `Sim (hasEmb r)`
+   `merge_sees_all_pieces`                  `mergeOccurrences` on a valid rest = the specification's `laterPieces`
+   `rewrite_spec_exact`                     … exact equality `parse out = specRw …` without `embedded`/`embeddedMerge`
    `rewrite_spec_exact_of_canon`            … exact equality with `embedded` when the Go output is deep-canonical
    `rewrite_message_spec`                   message rewriter: + untemplated records are kept, in order, unchanged
    `flat_message_spec` (in `…SpecFlat`)     tables of valid raw templates: EVERY valid input, exact, no side condition
@@ -85,11 +88,15 @@ theorem Sim.types_eq {e : Bool} {a b : List (Nat × WireVal)} (h : Sim e a b) :
   | emb n x hv hs _ _ ih2 => simp only [List.map_cons, ih2]; rfl
 
 /-- **C19, main theorem.**  For a well-formed rewriter `r` (`rwOK`: table indices inside the table, embedded field
-numbers in `1 … 2^61-1`), an input small enough for 64-bit lengths (`sizeM r * (inp.length + 1) < 2^64`) and whenever
-the specification is defined on `inp` (for `message` / `embedded` this says: `inp` is a VALID message, the raw
-templates that get used are valid messages, the sub-messages that get rewritten are valid) —
+numbers in `1 … 2^61-1`; any nesting of `raw`, `multi`, `message`, `embedded`, `embeddedMerge`, `replacement`), an input
+small enough for 64-bit lengths (`sizeM r * (inp.length + 1) < 2^64`) and whenever the specification is defined on `inp`
+(for `message` / `embedded` / `embeddedMerge` this says: `inp` is a VALID message, the raw templates that get used are
+valid messages, the sub-messages that get rewritten are valid — for a table slot holding an `embeddedMerge`: the
+CONCATENATION of all length-delimited occurrences of the field is a valid message) —
 the Go rewriter returns `ok out` for every `fuel ≥ inp.length + fuelD r`, `out` is a VALID message, and its records
-are the specification's records up to `Sim (hasEmb r)`. -/
+are the specification's records up to `Sim (hasEmb r)`.  In particular the input that the Go loop hands to an
+`embddedRewriter{merge: true}` (`mergeOccurrences`) is the specification's `payload ++ laterPieces n rest`, and a
+`replacement` rewrites from the empty input on both sides. -/
 theorem rewrite_spec (r : Rw) (inp : Bytes) (sf : Nat) (recs : List (Nat × WireVal)) (hok : rwOK r = true)
     (hsz : sizeM r * (inp.length + 1) < 2 ^ 64) (hs : specRw sf (toSpec r) inp = some recs) :
     ∃ out recs', (∀ fuel, inp.length + fuelD r ≤ fuel → rewrite fuel r inp = .ok out) ∧
@@ -109,8 +116,8 @@ theorem rewrite_spec' (r : Rw) (inp : Bytes) (sf : Nat) (hok : rwOK r = true)
     obtain ⟨out, recs', h1, h2, h3⟩ := rewrite_spec r inp sf recs hok hsz hs
     exact ⟨out, recs', recs, h1, h2, rfl, h3⟩
 
-/-- **exact form** (`raw`, `multi`, `message`, nested in any way, no `embedded`): the output is a valid message and
-its records are exactly the specification's -/
+/-- **exact form** (`raw`, `multi`, `message`, `replacement`, nested in any way, no `embedded` / `embeddedMerge`): the
+output is a valid message and its records are exactly the specification's -/
 theorem rewrite_spec_exact (r : Rw) (inp : Bytes) (sf : Nat) (hok : rwOK r = true) (hne : hasEmb r = false)
     (hsz : sizeM r * (inp.length + 1) < 2 ^ 64) (hdef : (specRw sf (toSpec r) inp).isSome = true) :
     ∃ out, (∀ fuel, inp.length + fuelD r ≤ fuel → rewrite fuel r inp = .ok out) ∧
@@ -152,9 +159,19 @@ theorem rewrite_spec_exact_of_canon (r : Rw) (inp : Bytes) (sf : Nat) (hok : rwO
   obtain ⟨out, recs', recs, h1, h2, h3, h4⟩ := rewrite_spec' r inp sf hok hsz hdef
   exact ⟨out, recs', h1, h2, fun hc => by rw [h2, h3, h4.eq_of_deepCanon hc]⟩
 
+/-- **`mergeOccurrences` = `laterPieces`**: when the rest `m` of the loop's input is a valid message with records `rest`,
+the value handed to an `embddedRewriter{merge: true}` is `v` followed by the payloads of the later length-delimited
+records of field `f`, in order -/
+theorem merge_sees_all_pieces (f : Nat) (v m : Bytes) (rest : List (Nat × WireVal)) (number len : Nat)
+    (rs : List (Nat × Rw)) (hv : parse (m.length + 1) m = some rest) :
+    mergeInput (.embeddedMerge number len rs) f 2 v m = v ++ laterPieces f rest := by
+  simp only [mergeInput]
+  exact mergeOccurrences_valid f m.length m rest v hv (Nat.le_refl _)
+
 /-- **message rewriter** (`MessageRewriter.Rewrite`): on a valid input with records `recs0`, when the specification
 is defined, the output is a valid message with records `recs'` such that
-  * `Sim e recs' result`: they are the specification's (`e = false`, i.e. equality, without `embedded` entries), and
+  * `Sim e recs' result`: they are the specification's (`e = false`, i.e. equality, without `embedded` /
+    `embeddedMerge` entries), and
   * the untemplated input records form a sublist of `recs'`: they are kept, in their original order, with identical
     values (3b). -/
 theorem rewrite_message_spec (len : Nat) (rs : List (Nat × Rw)) (inp : Bytes) (recs0 result : List (Nat × WireVal))
@@ -280,6 +297,38 @@ theorem ex2_hyps : rwOK exR2 = true ∧ sizeM exR2 * (exI2.length + 1) < 2 ^ 64 
   simp [ProtoWire.encRecs, encRec, leb_small]
 
 theorem ex2_run : rewrite (exI2.length + fuelD exR2) exR2 exI2 = .ok [0x0a, 0x04, 0x10, 0x01, 0x08, 0x05] := by
+  decide
+
+/-- non-vacuity with `embeddedMerge` (`embddedRewriter{merge: true}`) and `replacement`: field 1 is a singular message
+field that arrives in TWO pieces `{1:1}` … `{2:2, 3:3}` with field 2 in between; its rewriter (template `2:7`) sees the
+merged message `{1:1, 2:2, 3:3}`, keeps `1:1` and `3:3`, replaces `2:2`; the second piece is dropped from the outer message.  Field 2 is rewritten by a `replacement`
+(new value `2:9`, independent of the old one). -/
+def exR3 : Rw :=
+  .message 3 [(1, .embeddedMerge 1 3 [(2, .raw [0x10, 0x07])]), (2, .replacement (.raw [0x10, 0x09]))]
+def exI3 : Bytes := [0x0a, 0x02, 0x08, 0x01, 0x10, 0x05, 0x0a, 0x04, 0x10, 0x02, 0x18, 0x03]
+
+theorem ex3_hyps : rwOK exR3 = true ∧ sizeM exR3 * (exI3.length + 1) < 2 ^ 64 ∧
+    specRw 12 (toSpec exR3) exI3 = some [(1, .len [0x08, 0x01, 0x10, 0x07, 0x18, 0x03]), (2, .varint 9)] := by
+  refine ⟨by decide, by decide, ?_⟩
+  have : specRw 12 (toSpec exR3) exI3 =
+      some [(1, .len (ProtoWire.encRecs [(1, .varint 1), (2, .varint 7), (3, .varint 3)])), (2, .varint 9)] := by
+    rfl
+  rw [this]
+  simp [ProtoWire.encRecs, encRec, leb_small]
+
+/-- the merged input the Go loop computes for this case, and the run: model and specification agree -/
+theorem ex3_merge : mergeInput (.embeddedMerge 1 3 [(2, .raw [0x10, 0x07])]) 1 2 [0x08, 0x01]
+    [0x10, 0x05, 0x0a, 0x04, 0x10, 0x02, 0x18, 0x03] = [0x08, 0x01, 0x10, 0x02, 0x18, 0x03] := by decide
+
+theorem ex3_run : rewrite (exI3.length + fuelD exR3) exR3 exI3 =
+    .ok [0x0a, 0x06, 0x08, 0x01, 0x10, 0x07, 0x18, 0x03, 0x10, 0x09] := by
+  decide
+
+/-- the same table with a plain `embedded` (no merge) rewrites the first piece only and drops the second: `3:3` is LOST
+(and the template's `2:7` is appended as an absent field) — the behaviour before commit c0f6ba5 -/
+theorem ex3_nomerge :
+    rewrite 30 (.message 3 [(1, .embedded 1 3 [(2, .raw [0x10, 0x07])]), (2, .replacement (.raw [0x10, 0x09]))]) exI3 =
+    .ok [0x0a, 0x04, 0x08, 0x01, 0x10, 0x07, 0x10, 0x09] := by
   decide
 
 /-- **finding 1** (statement "records of the output = `specRw`" is FALSE below `embedded`): the sub-message
